@@ -40,6 +40,8 @@ SYSTEMS = {
     "g1rf3m9": dict(grace=1, rf=3, max_t=9, R=4),    # rungs 1,3; scripts end at 4
     "g1rf2m8": dict(grace=1, rf=2, max_t=8, R=5),    # rungs 1,2,4; scripts end at 5
     "g2rf2m8": dict(grace=2, rf=2, max_t=8, R=8),    # rungs 2,4        (bracket 1: 4)
+    "g1rf2m8e": dict(grace=1, rf=2, max_t=8, R=2),   # rungs 1,2,4; scripts end exactly AT rung level 2: the final result of a
+                                                     # completing trial reaches the scheduler twice (result, then complete)
 }
 
 # per-metric base values in general position (distinct per metric; every weighted mean used below is
@@ -304,7 +306,7 @@ def configs(tier, seed):
     cap = 20000 if quick else 400000
     ci = len(out)
     # single objective (the Pareto order degenerates to a total order) and three objectives
-    for sname in (["g1rf2m4"] if quick else ["g1rf2m4", "g1rf3m4", "g1rf2m8"]):
+    for sname in (["g1rf2m4", "g1rf2m8e"] if quick else ["g1rf2m4", "g1rf3m4", "g1rf2m8", "g1rf2m8e"]):
         sy = SYSTEMS[sname]
         levels = [lv for lv in moasha_levels(sy["grace"], sy["rf"], sy["max_t"], 0) if lv <= sy["R"]]
         T1 = 5
